@@ -640,8 +640,8 @@ class PixelAlgorithms(AccessorBase):
         return xarray.apply_ufunc(
             ops.autocorr,
             xx,
-            nodata,
-            input_core_dims=[["time"], []],
+            kwargs={"nodata": nodata},
+            input_core_dims=[["time"]],
             dask="parallelized",
             output_dtypes=["float32"],
         )
